@@ -14,3 +14,41 @@ std::unique_ptr<draco::PointAttribute> c10_creator_bad(const draco::PointAttribu
 }
 
 }  // namespace verif_control
+
+// ---- CURSOR (C10, C01) ----------------------------------------------------------
+#include <vector>
+namespace verif_control {
+// the per-float-attribute cursor stalls on the `continue` path
+int c10_cursor_bad(const std::vector<int> &kinds, const std::vector<int> &side, bool skip) {
+  int sum = 0;
+  int k = 0;
+  for (size_t i = 0; i < kinds.size(); ++i) {
+    if (kinds[i] == 1) {
+      const int v = side[k];
+      if (skip) {
+        sum += 1;
+        continue;
+      }
+      sum += v;
+      ++k;
+    }
+  }
+  return sum;
+}
+int c10_cursor_ok(const std::vector<int> &kinds, const std::vector<int> &side, bool skip) {
+  int sum = 0;
+  int k = 0;
+  for (size_t i = 0; i < kinds.size(); ++i) {
+    if (kinds[i] == 1) {
+      const int v = side[k];
+      k++;
+      if (skip) {
+        sum += 1;
+        continue;
+      }
+      sum += v;
+    }
+  }
+  return sum;
+}
+}  // namespace verif_control
